@@ -9,6 +9,7 @@ import (
 	"os"
 	"strings"
 	"sync"
+	"sync/atomic"
 	"time"
 
 	"perun.network/go-perun/channel"
@@ -52,6 +53,9 @@ type trigger struct {
 	// watcher keeps the sub-channel's last state for refutations). Only the registration verdict
 	// is taken: without the controller the honest party cannot settle the sub-channel itself.
 	CloseSub bool `json:"honest_party_closed_its_sub_channel_controller,omitempty"`
+	// CancelCtx: the honest party cancels the context of its update request from inside the
+	// update notification (the update is enabled at that point, so it is the newest agreed state).
+	CancelCtx bool `json:"honest_party_cancels_its_request_context_in_the_update_notification,omitempty"`
 }
 
 type witness struct {
@@ -145,6 +149,9 @@ func scenario(s sink.Sink, rng *rand.Rand, sample bool) int {
 	}
 	for _, p := range points {
 		trigs = append(trigs, trigger{Kind: "between", Point: p, Step: -1})
+		if sc.Sub == nil && p != "after-open" {
+			trigs = append(trigs, trigger{Kind: "between", Point: p, Step: -1, CancelCtx: true})
+		}
 		if sc.Sub != nil && strings.HasPrefix(p, "after-sub-steps") {
 			trigs = append(trigs, trigger{Kind: "between", Point: p, Step: -1, SubOld: true})
 			trigs = append(trigs, trigger{Kind: "between", Point: p, Step: -1, CloseSub: true})
@@ -225,6 +232,10 @@ func execute(s sink.Sink, seed int64, sc scen.Scenario, tg trigger, sample bool)
 	}()
 	A, B := r.P[0], r.P[1]
 	B.NoWatch = true
+	if tg.CancelCtx {
+		atomic.StoreInt32(&A.CancelOnEnable, 1)
+		defer func() { s.Count("request_contexts_cancelled_in_update_notifications", atomic.LoadInt64(&A.RequestsCancelled)) }()
+	}
 	var mu sync.Mutex
 	fired := false
 	hadVersion := true
